@@ -344,6 +344,21 @@ pub fn c12_queries(ctx: &mut Ctx, path: &str) {
     }
     let nn = model::norm_seq(abs, &segs).len();
     chk!("normalized_segments.len", p.normalized_segments().len(), nn);
+    // IntoIterator for &Path is the same iterator; rev() is the reversed '/'-split
+    {
+        let via_into: Vec<Vec<u8>> = p.into_iter().map(|s| s.as_bytes().to_vec()).collect();
+        let wantv: Vec<Vec<u8>> = segs.iter().map(|x| x.to_vec()).collect();
+        ctx.call("IntoIterator");
+        if via_into != wantv {
+            ctx.fail("C12.iteration", c12_feats("into_iter", t), format!("(&path).into_iter() of {} yields {} segments, the '/'-split has {}", show(t), via_into.len(), wantv.len()));
+        }
+        let rev: Vec<Vec<u8>> = p.segments().rev().map(|s| s.as_bytes().to_vec()).collect();
+        let mut wr = wantv.clone();
+        wr.reverse();
+        if rev != wr {
+            ctx.fail("C12.iteration", c12_feats("rev", t), format!("segments().rev() of {} differs from the reversed '/'-split", show(t)));
+        }
+    }
     // joining reproduces the path
     let joined = model::render_segments(p.is_absolute(), &p.segments().map(|s| s.as_bytes()).collect::<Vec<_>>());
     if joined != t && !(t == b"" || t == b"/") {
@@ -920,6 +935,25 @@ pub fn c08_batch(ctx: &mut Ctx, texts: &[&str]) {
             }
         }
         Err(m) => ctx.fail("C08.panic", c08_feats("RiRefBuf", "collections", &all), format!("collection operations panicked: {}", m)),
+    }
+    // the paths of the batch as stand-alone values: absolute, relative and empty mixed
+    {
+        let mut paths: Vec<&Path> = vals.iter().map(|v| v.path()).collect();
+        paths.push(Path::new("").unwrap());
+        paths.push(Path::new("/").unwrap());
+        match crate::ctx::guard(|| { paths.sort(); paths }) {
+            Err(m) => ctx.fail("C08.panic", c08_feats("Path", "sort", &all), format!("sorting the paths of a batch panicked: {}", m)),
+            Ok(sorted) => {
+                for i in 0..sorted.len() {
+                    for j in (i + 1)..sorted.len() {
+                        if let Ok(std::cmp::Ordering::Greater) = crate::ctx::guard(|| sorted[i].cmp(sorted[j])) {
+                            let t: [&[u8]; 2] = [sorted[i].as_bytes(), sorted[j].as_bytes()];
+                            ctx.fail("C08.total-order", c08_feats("Path", "sorted sequence has an inverted pair", &t), format!("after sorting, path {} (index {}) compares Greater than {} (index {})", show(t[0]), i, show(t[1]), j));
+                        }
+                    }
+                }
+            }
+        }
     }
     ctx.stratum("batch");
     ctx.nontrivial_cur();
@@ -2123,6 +2157,7 @@ pub fn c04_history(ctx: &mut Ctx, initial: &str, ops_text: &str, kind: u64, rout
                 1 => (RiRefBuf::default(), "default"),
                 2 => match RiRefBuf::new(own(initial)) { Ok(b) => (b.clone().to_owned(), "cloned"), Err(_) => return },
                 3 => match RiBuf::new(own(initial)) { Ok(b) => (RiRefBuf::from(b), "converted-from-full"), Err(_) => return },
+                4 => match RiRefBuf::new(own_spare(initial)) { Ok(b) => (b, "parsed-spare-capacity"), Err(_) => return },
                 _ => match RiRefBuf::new(own(initial)) { Ok(b) => (b, "parsed"), Err(_) => return },
             };
             ctx.stratum("buffer:RiRefBuf");
